@@ -27,6 +27,8 @@ def encoders(prog):
     out |= set(by_regex(prog, r"^<haystack::val::dict::Dict as haystack::val::dict::HaystackDict>::dis$"))
     out |= set(by_regex(prog, r"^haystack::val::dis_macro::dis_macro$"))
     out |= {b.id for b in prog.bodies.values() if b.file.endswith("encoding/json/encode.rs")}
+    # the exported encode entry points of the C API run the same encoders and then build a C string
+    out |= {b.id for b in prog.bodies.values() if b.file.startswith("src/c_api/") and str(b.rec.get("abi", "")).startswith("C") and re.search(r"_to_(zinc|json)_string$", b.rec.get("name", ""))}
     return sorted(out)
 
 
